@@ -5,6 +5,7 @@ import Prom.Drv.Reg
 import Prom.Drv.Local
 import Prom.Drv.Timer
 import Prom.Drv.Fall
+import Prom.Drv.Conc
 /- Line-protocol driver: one request per line on stdin, one result per line on stdout. -/
 open Prom Prom.Drv
 
@@ -20,6 +21,9 @@ def step (st : DState) (line : String) : DState × String :=
   | ["case"] => ({}, "case")
   | "hist" :: args => (st, histHandle args)
   | "desc" :: args => (st, descHandle args)
+  | "catom" :: args => (st, concHandle "catom" args)
+  | "cvec" :: args => (st, concHandle "cvec" args)
+  | "chist" :: args => (st, concHandle "chist" args)
   | "fall" :: "lin" :: args => (st, clsOfText (histHandle ("lin" :: args)))
   | "fall" :: "exp" :: args => (st, clsOfText (histHandle ("exp" :: args)))
   | "fall" :: args => (st, fallHandle args)
